@@ -875,6 +875,70 @@ theorem accEnum_int (f : Nat) (t : Str) (htag : it.attr.tag = some t) (hcon : it
 
 end
 
+/-! ### enums with `untagged` variants: the tagged part, and the fold over the untagged ones -/
+
+/-- the enum without its `untagged` variants (same attributes) -/
+def Item.taggedPart (it : Item) : Item := { it with variants := it.variants.filter fun v => !v.attr.untagged }
+
+@[simp] theorem Item.taggedPart_attr (it : Item) : (Item.taggedPart it).attr = it.attr := rfl
+@[simp] theorem Item.taggedPart_isEnum (it : Item) : (Item.taggedPart it).isEnum = it.isEnum := rfl
+
+theorem foldl_min_le_init {α} (g : α → Nat) : ∀ (l : List α) (a : Nat), l.foldl (fun acc v => min acc (g v)) a ≤ a
+  | [], a => Nat.le_refl a
+  | x :: xs, a => Nat.le_trans (foldl_min_le_init g xs (min a (g x))) (Nat.min_le_left a (g x))
+
+theorem foldl_min_le_mem {α} (g : α → Nat) : ∀ (l : List α) (a : Nat) (v : α), v ∈ l → l.foldl (fun acc v => min acc (g v)) a ≤ g v
+  | x :: xs, a, v, hv => by
+    rcases List.mem_cons.mp hv with rfl | hv
+    · exact Nat.le_trans (foldl_min_le_init g xs (min a (g v))) (Nat.min_le_right a (g v))
+    · exact foldl_min_le_mem g xs (min a (g x)) v hv
+
+theorem Good.le {X Y : Nat → Nat} (h : Good X) (e : ∀ f, Y f ≤ X f) : Good Y := by
+  obtain ⟨a, ha⟩ := h
+  exact ⟨a, fun f hf => Nat.le_trans (e f) (ha f hf)⟩
+
+/-- reading a value as the enum is at least as permissive as reading it as its tagged part -/
+theorem accEnum_le_tagged (cfg : Cfg) (env : Env) (it : Item) (hiu : it.attr.untagged = false) (j : JVal) :
+    ∀ f, accEnum cfg env f it [] j ≤ accEnum cfg env f (Item.taggedPart it) [] j
+  | 0 => by simp [accEnum]
+  | f + 1 => by
+    have h1 : ((Item.taggedPart it).variants.filter fun v => !v.attr.skip).filter (fun v => v.attr.untagged || (Item.taggedPart it).attr.untagged) = [] := by
+      rw [List.filter_eq_nil_iff]
+      intro v hv
+      have := (List.mem_filter.mp (List.mem_filter.mp hv).1).2
+      simp only [Item.taggedPart] at this ⊢
+      simp only [Bool.not_eq_true'] at this
+      simp [this, hiu]
+    have h2 : ((Item.taggedPart it).variants.filter fun v => !v.attr.skip).filter (fun v => !(v.attr.untagged || (Item.taggedPart it).attr.untagged))
+        = (it.variants.filter fun v => !v.attr.skip).filter (fun v => !(v.attr.untagged || it.attr.untagged)) := by
+      simp only [Item.taggedPart, List.filter_filter, hiu, Bool.or_false]
+      congr 1
+      funext v
+      cases v.attr.untagged <;> cases v.attr.skip <;> rfl
+    simp only [accEnum]
+    rw [h1, h2]
+    dsimp +instances only [Item.taggedPart_attr]
+    simp only [List.foldl_nil]
+    refine Nat.le_trans (foldl_min_le_init _ _ _) ?_
+    have hvc : ∀ var c, accVariantContent cfg env f (Item.taggedPart it) [] var c = accVariantContent cfg env f it [] var c := by
+      intro var c
+      cases f <;> simp [accVariantContent, Serde.renameAllS, Item.taggedPart]
+    have hrs : ∀ var, Serde.renameAllS (Item.taggedPart it) var = Serde.renameAllS it var := fun _ => rfl
+    simp only [hvc, hrs, Nat.le_refl]
+
+/-- … and as permissive as any of its `untagged` variants -/
+theorem accEnum_le_untagged (cfg : Cfg) (env : Env) (it : Item) (var : Variant) (hvm : var ∈ it.variants) (hsk : var.attr.skip = false)
+    (hun : (var.attr.untagged || it.attr.untagged) = true) (j : JVal) (f : Nat) :
+    accEnum cfg env (f + 1) it [] j ≤
+      (if var.unitLike then (if isNull j then 0 else 3) else accVariantContent cfg env f it [] var (some j)) := by
+  simp only [accEnum]
+  have hmem : var ∈ (it.variants.filter fun v => !v.attr.skip).filter (fun v => v.attr.untagged || it.attr.untagged) :=
+    List.mem_filter.mpr ⟨List.mem_filter.mpr ⟨hvm, by simp [hsk]⟩, hun⟩
+  refine Nat.le_trans (foldl_min_le_mem _ _ _ var hmem) ?_
+  by_cases hu : var.unitLike = true
+  · simp [hu]
+  · simp [hu]
+
 theorem bodyOk_named {cfg : Cfg} {ra : Option Rule} {of : Opt} {tag : Option Str} {fields : List Field}
     (h : bodyOk cfg ra of tag .named fields = true) : fields.all (fieldOkN cfg ra of) = true := by
   simp only [bodyOk, beq_self_eq_true, if_true, Bool.and_eq_true] at h
@@ -983,10 +1047,31 @@ def ItemF (cfg : Cfg) (it : Item) : Prop :=
   ((it.variants.filter fun v => !v.attr.skip).map (Serde.variantKey cfg it.attr.renameAll)).Nodup ∧
   (it.isEnum = true → ∀ v ∈ it.variants, variantOk cfg it v = true)
 
+/-- the same without any demand on `untagged` (what `gEnum` needs; the tagged part of such an enum satisfies `ItemF`) -/
+def ItemG (cfg : Cfg) (it : Item) : Prop :=
+  (∀ v ∈ it.variants, v.fields.all (fieldTyOk cfg) = true) ∧
+  ((it.variants.filter fun v => !v.attr.skip).map (Serde.variantKey cfg it.attr.renameAll)).Nodup ∧
+  (it.isEnum = true → ∀ v ∈ it.variants, variantOk cfg it v = true)
+
+/-- named fields of a variant of the fragment, whatever its tagging -/
+theorem variantOk_named (cfg : Cfg) (it : Item) (var : Variant) (h : variantOk cfg it var = true) (hs : var.shape = .named) :
+    renameAllT it var = Serde.renameAllS it var ∧ var.fields.all (fieldOkN cfg (renameAllT it var) .no) = true := by
+  simp only [variantOk, Bool.and_eq_true, beq_iff_eq, Bool.or_eq_true, bne_iff_ne, ne_eq] at h
+  obtain ⟨_, hra, hbody⟩ := h
+  refine ⟨?_, ?_⟩
+  · rcases hra with h1 | h1
+    · exact absurd hs h1
+    · exact h1
+  · cases htg : (if var.attr.untagged = true then Derive.Tagged.untagged else Derive.tagged it.attr) with
+    | untagged => simp only [htg] at hbody; rw [hs] at hbody; exact bodyOk_named hbody
+    | externally => simp only [htg] at hbody; rw [hs] at hbody; exact bodyOk_named hbody
+    | adjacently t c => simp only [htg, Bool.and_eq_true] at hbody; rw [hs] at hbody; exact bodyOk_named hbody.2
+    | internally t => simp only [htg, Bool.and_eq_true] at hbody; rw [hs] at hbody; exact bodyOk_named hbody.2
+
 /-- what the fragment says about an item -/
 theorem frag_item (cfg : Cfg) (env : Env) (hF : deFragB cfg env = true) (it : Item) (hmem : it ∈ env) :
-    it.attr.untagged = false ∧ it.fields.all (fieldTyOkP cfg (it.generics.map (·.name))) = true ∧
-    (∀ v ∈ it.variants, v.attr.untagged = false ∧ v.fields.all (fieldTyOkP cfg (it.generics.map (·.name))) = true) ∧
+    it.fields.all (fieldTyOkP cfg (it.generics.map (·.name))) = true ∧
+    (∀ v ∈ it.variants, v.fields.all (fieldTyOkP cfg (it.generics.map (·.name))) = true) ∧
     ((it.variants.filter fun v => !v.attr.skip).map (Serde.variantKey cfg it.attr.renameAll)).Nodup ∧
     (it.isEnum = true → ∀ v ∈ it.variants, variantOk cfg it v = true) ∧
     (it.isEnum = false → bodyOk cfg it.attr.renameAll it.attr.optionalFields it.attr.tag it.shape it.fields = true ∧
@@ -997,15 +1082,15 @@ theorem frag_item (cfg : Cfg) (env : Env) (hF : deFragB cfg env = true) (it : It
   simp only [fragB, Bool.and_eq_true, List.all_eq_true, decide_eq_true_eq] at hfrag
   obtain ⟨⟨⟨hitems, _⟩, hts⟩, hbodies⟩ := hfrag
   have hde' := hde it hmem
-  simp only [itemDeOk, Bool.and_eq_true, Bool.not_eq_true', List.all_eq_true, decide_eq_true_eq] at hde'
-  obtain ⟨⟨⟨hu, hf⟩, hv⟩, hk⟩ := hde'
+  simp only [itemDeOk, Bool.and_eq_true, List.all_eq_true, decide_eq_true_eq] at hde'
+  obtain ⟨⟨hf, hv⟩, hk⟩ := hde'
   have hok := hitems it hmem
   simp only [itemOk, Bool.and_eq_true] at hok
   obtain ⟨_, hrest⟩ := hok
-  refine ⟨hu, by simpa [List.all_eq_true] using hf, ?_, hk, ?_, ?_, hts, Option.isSome_iff_exists.mp (hbodies it hmem)⟩
+  refine ⟨by simpa [List.all_eq_true] using hf, ?_, hk, ?_, ?_, hts, Option.isSome_iff_exists.mp (hbodies it hmem)⟩
   · intro v hvm
     have := hv v hvm
-    exact ⟨this.1, by simpa [List.all_eq_true] using this.2⟩
+    simpa [List.all_eq_true] using this
   · intro hen v hvm
     simp only [hen, if_true, Bool.and_eq_true, List.all_eq_true] at hrest
     exact hrest.2 v hvm
@@ -1034,22 +1119,22 @@ theorem nameTyBL_length {limit : Nat} {nameN : Str → List Ts → Option Ts} : 
 /-- the instance of an item of the fragment (closed, readable arguments, one per parameter) has what the proof needs -/
 theorem frag_inst (cfg : Cfg) (it : Item) (args : List RTy) (hlen : (it.generics.map (·.name)).length ≤ args.length)
     (hargs : tyOkL cfg.limit args = true)
-    (hiu : it.attr.untagged = false) (hfty : it.fields.all (fieldTyOkP cfg (it.generics.map (·.name))) = true)
-    (hvs : ∀ v ∈ it.variants, v.attr.untagged = false ∧ v.fields.all (fieldTyOkP cfg (it.generics.map (·.name))) = true)
+    (hfty : it.fields.all (fieldTyOkP cfg (it.generics.map (·.name))) = true)
+    (hvs : ∀ v ∈ it.variants, v.fields.all (fieldTyOkP cfg (it.generics.map (·.name))) = true)
     (hnd : ((it.variants.filter fun v => !v.attr.skip).map (Serde.variantKey cfg it.attr.renameAll)).Nodup)
     (hvok : it.isEnum = true → ∀ v ∈ it.variants, variantOk cfg it v = true)
     (hst : it.isEnum = false → bodyOk cfg it.attr.renameAll it.attr.optionalFields it.attr.tag it.shape it.fields = true ∧
       (it.shape = .tuple → ∀ fld, it.fields = [fld] → fld.attr.skip = false)) :
-    ItemF cfg (Item.inst ((it.generics.map (·.name)).zip args) it) ∧
+    ItemG cfg (Item.inst ((it.generics.map (·.name)).zip args) it) ∧
     (Item.inst ((it.generics.map (·.name)).zip args) it).fields.all (fieldTyOk cfg) = true ∧
     (it.isEnum = false → bodyOk cfg it.attr.renameAll it.attr.optionalFields it.attr.tag it.shape
         (Item.inst ((it.generics.map (·.name)).zip args) it).fields = true ∧
       (it.shape = .tuple → ∀ fld, (Item.inst ((it.generics.map (·.name)).zip args) it).fields = [fld] → fld.attr.skip = false)) := by
-  refine ⟨⟨hiu, ?_, ?_, ?_⟩, fieldsTyOk_inst cfg _ args hlen hargs it.fields hfty, ?_⟩
+  refine ⟨⟨?_, ?_, ?_⟩, fieldsTyOk_inst cfg _ args hlen hargs it.fields hfty, ?_⟩
   · intro v hv
     simp only [Item.inst_variants, List.mem_map] at hv
     obtain ⟨v0, hv0, rfl⟩ := hv
-    exact ⟨(hvs v0 hv0).1, fieldsTyOk_inst cfg _ args hlen hargs v0.fields (hvs v0 hv0).2⟩
+    exact fieldsTyOk_inst cfg _ args hlen hargs v0.fields (hvs v0 hv0)
   · have := filter_inst ((it.generics.map (·.name)).zip args) (fun a => !a.skip) it.variants
     simp only [Item.inst_variants, Item.inst_attr]
     rw [this, List.map_map]
@@ -1202,7 +1287,7 @@ theorem gTy (cfg : Cfg) (env : Env) (hF : deFragB cfg env = true) : ∀ {T : Ts}
       simp only [Ts.ref.injEq] at hN
       obtain ⟨hn, hxs⟩ := hN
       have hmem : it ∈ env := List.mem_of_find?_eq_some hfind
-      obtain ⟨hiu, hfty, hvs, hnd, hvok, hst, hts, b, hb⟩ := frag_item cfg env hF it hmem
+      obtain ⟨hfty, hvs, hnd, hvok, hst, hts, b, hb⟩ := frag_item cfg env hF it hmem
       have hlook := lookup_decl_in cfg env env it b hts hmem hb
       rw [hn] at hlook
       have hlook' : lookupDecl (declsOf cfg env) n = some (it.generics.map (·.name), b) := hlook
@@ -1212,10 +1297,10 @@ theorem gTy (cfg : Cfg) (env : Env) (hF : deFragB cfg env = true) : ∀ {T : Ts}
       have hlen' : (it.generics.map (·.name)).length ≤ args.length := by
         have := nameTyBL_length hargs
         simp only [List.length_map]; omega
-      obtain ⟨hI, hfty', hst'⟩ := frag_inst cfg it args hlen' hokargs hiu hfty hvs hnd hvok hst
+      obtain ⟨hI, hfty', hst'⟩ := frag_inst cfg it args hlen' hokargs hfty hvs hnd hvok hst
       have hb' := itemBody_inst cfg env (it.generics.map (·.name)) args targs hargs it b hb
         (fun hen hs => by have := (hst hen).1; rw [hs] at this; exact bodyOk_named this)
-        (fun hen v hv hs => (variantOk_facts cfg it v (hvok hen v hv) (hvs v hv).1 hiu).2.2.1 hs)
+        (fun hen v hv hs => (variantOk_named cfg it v (hvok hen v hv) hs).2)
       have hT' : subst (ps.zip xs) body = subst ((it.generics.map (·.name)).zip targs) b := by rw [hps, hbody, hxs]
       refine Good.congr ?_ he
       rw [ht0]
@@ -1824,12 +1909,92 @@ theorem gAdj2 (cfg : Cfg) (env : Env) (hF : deFragB cfg env = true) : ∀ {fsT :
   | _, _, .nil, _, _, _, _, he, _, _, _, _, _, _ => by cases he
 /-- the union of an enum -/
 theorem gEnum (cfg : Cfg) (env : Env) (hF : deFragB cfg env = true) : ∀ {T : Ts} {j : JVal}, Member (declsOf cfg env) T j →
-    ∀ (it : Item) (arms : List Ts), T = .union arms → variantsTs cfg env it it.variants = some arms → ItemF cfg it → it.isEnum = true → wfJ j = true →
+    ∀ (it : Item) (arms : List Ts), T = .union arms → variantsTs cfg env it it.variants = some arms → ItemG cfg it → it.isEnum = true → wfJ j = true →
       Good (fun f => accEnum cfg env f it [] j)
-  | _, _, .union (ts := ts) hmem' m', it, arms, hT, harms, hmem, hen, hw => by
+  | _, j, .union (ts := ts) (t := arm) hmem' m', it, arms, hT, harms, hG, hen, hw => by
     simp only [Ts.union.injEq] at hT
     obtain ⟨var, hvm, hsk, hv⟩ := variantsTs_arm_inv cfg env it it.variants arms _ harms (by rw [← hT]; exact hmem')
-    exact gVariant cfg env hF m' it var hv hmem hvm hsk hen hw
+    obtain ⟨hvty, hnd, hvok⟩ := id hG
+    by_cases hun : (var.attr.untagged || it.attr.untagged) = true
+    · -- an `untagged` variant (or enum): the arm is the content itself; serde tries the untagged variants in turn
+      have htg : (if var.attr.untagged = true then Derive.Tagged.untagged else Derive.tagged it.attr) = Derive.Tagged.untagged := by
+        by_cases h1 : var.attr.untagged = true
+        · simp [h1]
+        · have h2 : it.attr.untagged = true := by simpa [h1] using hun
+          simp [h1, Derive.tagged, h2]
+      have hC : structBody cfg env (renameAllT it var) .no none var.shape var.fields = some arm := by
+        have := hv
+        unfold variantTs at this
+        simp only [htg] at this
+        exact this
+      by_cases hu : var.unitLike = true
+      · -- `null`
+        have hnull := structBody_unitLike cfg env (renameAllT it var) var hu
+        rw [hnull] at hC
+        have hj : isNull j = true := by
+          have e := Option.some.inj hC
+          have m0 := m'
+          rw [← e] at m0
+          cases m0; rfl
+        refine Good.le (Good.shift (Good.const (Nat.zero_le 1))) (fun f => ?_)
+        cases f with
+        | zero => simp [accEnum]
+        | succ f' =>
+          refine Nat.le_trans (accEnum_le_untagged cfg env it var hvm hsk hun j f') ?_
+          simp [hu, hj]
+      · have hu' : var.unitLike = false := by simpa using hu
+        have hvt := hvty var hvm
+        have hg : Good (fun f => accVariantContent cfg env f it [] var (some j)) :=
+          content_good cfg env it var j hu'
+            (fun fld hs hfs => by
+              have hskf : fld.attr.skip = false := by
+                by_cases h : fld.attr.skip = true
+                · simp [Variant.unitLike, hs, hfs, h] at hu'
+                · simpa using h
+              have hC' : tyTs cfg env fld.ty = some arm := by
+                rw [hs, hfs] at hC
+                simpa [structBody, hskf] using hC
+              have hty : tyOk cfg.limit fld.ty = true := by
+                have := hvt
+                rw [hfs] at this
+                simpa [fieldTyOk, hskf] using this
+              exact gTy cfg env hF m' fld.ty hC' hty hw)
+            (fun hnt => gStruct cfg env hF m' (renameAllT it var) (Serde.renameAllS it var) .no none none var.shape var.fields
+              hC (fun hs => ((variantOk_named cfg it var (hvok hen var hvm) hs).1).symm) hnt
+              (fun hs => (variantOk_named cfg it var (hvok hen var hvm) hs).2) hvt hw)
+        refine Good.le (Good.shift hg) (fun f => ?_)
+        cases f with
+        | zero => simp [accEnum]
+        | succ f' =>
+          refine Nat.le_trans (accEnum_le_untagged cfg env it var hvm hsk hun j f') ?_
+          simp [hu']
+    · -- a tagged variant of an enum that is not `untagged`: read it as a variant of the tagged part
+      have hvu : var.attr.untagged = false := by
+        cases h : var.attr.untagged with
+        | false => rfl
+        | true => simp [h] at hun
+      have hiu : it.attr.untagged = false := by
+        cases h : it.attr.untagged with
+        | false => rfl
+        | true => simp [h] at hun
+      have hsub : ((Item.taggedPart it).variants.filter fun v => !v.attr.skip)
+          = ((it.variants.filter fun v => !v.attr.skip).filter fun v => !v.attr.untagged) := by
+        simp only [Item.taggedPart, List.filter_filter]
+        congr 1
+        funext v
+        exact Bool.and_comm _ _
+      have hF' : ItemF cfg (Item.taggedPart it) := by
+        refine ⟨hiu, ?_, ?_, ?_⟩
+        · intro v hv'
+          have hv2 := List.mem_filter.mp hv'
+          exact ⟨by simpa using hv2.2, hvty v hv2.1⟩
+        · rw [hsub]
+          exact List.Nodup.sublist ((List.filter_sublist).map _) hnd
+        · intro _ v hv'
+          exact hvok hen v (List.mem_filter.mp hv').1
+      have hvm' : var ∈ (Item.taggedPart it).variants := List.mem_filter.mpr ⟨hvm, by simp [hvu]⟩
+      have g := gVariant cfg env hF m' (Item.taggedPart it) var hv hF' hvm' hsk hen hw
+      exact Good.le g (accEnum_le_tagged cfg env it hiu j)
   | _, _, .numberInt _, _, _, hT, _, _, _, _ => by cases hT
   | _, _, .numberFloat _, _, _, hT, _, _, _, _ => by cases hT
   | _, _, .bigint _, _, _, hT, _, _, _, _ => by cases hT
